@@ -49,17 +49,17 @@ pub fn run(s: &Session) {
         abstract state fingerprint (exhaustive part) / distinct sequence (random part)");
     s.assume("HashMap iteration order inside the behaviour (peer visiting order) is not controlled; invariants must hold for every order");
     let mode = Mode { check_wire: false, check_sets: true };
-    let cfg_a = Cfg { peers: 3, max_peers: 2, max_warm: 1, max_hot: 1, max_error_count: 0, version: 13 };
+    let cfg_a = Cfg { peers: 3, max_peers: 2, max_warm: 1, max_hot: 1, max_error_count: 0, version: 13, accept_peer_sharing: 1 };
     let (st, tr) = bfs(s, "exhaustive-3peers", &cfg_a, &[], &alphabet(3), s.pick(7, 9), &mode, &interesting);
     s.note("exhaustive_3peers_states", serde_json::json!(st));
     s.note("exhaustive_3peers_transitions", serde_json::json!(tr));
-    let cfg_b = Cfg { peers: 2, max_peers: 3, max_warm: 2, max_hot: 1, max_error_count: 1, version: 13 };
+    let cfg_b = Cfg { peers: 2, max_peers: 3, max_warm: 2, max_hot: 1, max_error_count: 1, version: 13, accept_peer_sharing: 1 };
     let (st, tr) = bfs(s, "exhaustive-2peers", &cfg_b, &[], &alphabet(2), s.pick(9, 11), &mode, &interesting);
     s.note("exhaustive_2peers_states", serde_json::json!(st));
     s.note("exhaustive_2peers_transitions", serde_json::json!(tr));
     for (name, cfg) in [
-        ("random-20peers", Cfg { peers: 20, max_peers: 12, max_warm: 6, max_hot: 3, max_error_count: 1, version: 13 }),
-        ("random-6peers", Cfg { peers: 6, max_peers: 4, max_warm: 2, max_hot: 1, max_error_count: 0, version: 13 }),
+        ("random-20peers", Cfg { peers: 20, max_peers: 12, max_warm: 6, max_hot: 3, max_error_count: 1, version: 13, accept_peer_sharing: 1 }),
+        ("random-6peers", Cfg { peers: 6, max_peers: 4, max_warm: 2, max_hot: 1, max_error_count: 0, version: 13, accept_peer_sharing: 1 }),
     ] {
         let c2 = cfg.clone();
         s.forall(
